@@ -253,7 +253,7 @@ class SimulationBuilder:
 
             if len(axes) >= 1:
                 for axis in axes[1:]:
-                    self.add_perpendicular_axis(axis[0])
+                    self.axes.append(list(axis))
 
             self.expand_axes()
 
